@@ -189,6 +189,20 @@ def check(case) -> core.Out:
         ser.append(s)
         for what, detail in frame_problems(s, clsid, m):
             out.viol.append((key + f"frame:{what}", f"[{label}] {detail}; frame {s[:40].hex()}"))
+        pl = m.payload
+        if isinstance(pl, bytearray) and "bytearray" not in label:
+            # the message hands out its own live buffer: a caller who extends what it got
+            # (blob = msg.payload; blob += more) must not change the message
+            pl.extend(b"\x55\xaa")
+            if pl:
+                pl[0] ^= 0xFF
+            try:
+                s2 = m.serialize()
+            except Exception as err:  # noqa
+                s2 = repr(err).encode()
+            if s2 != s:
+                out.viol.append((key + "payload-buffer-shared", f"[{label}] editing the value of .payload in place changes "
+                                                                f"serialize(): {s2[:40].hex()} vs {s[:40].hex()}"))
     if len(set(ser)) > 1:
         out.viol.append((key + "addressing-frames-differ", f"{[x[:24].hex() for x in ser]}"))
     if route == "payload" and ser and ser[0][6:-2] != bytes(case["payload"]):
